@@ -62,7 +62,12 @@ MANIFEST = dict(
     'bounded Beta under several names and as number / Numeric / Variable / expression (refused). '
     'Round 4: free parameters (utility coefficients, ln G_i / correction coefficients, nest parameters, the top scale, memberships alpha, ordered threshold and its differences) are CREATED at one value and EVALUATED '
     'at another one through the public betas= dictionary of get_value_c and through BIOGEME.simulate(the_beta_values=…) (pairs initial 0 -> 1, initial 1 -> 0.3 / another value, initial = lower bound); every oracle, the semantic model '
-    'and the three-way tie are stated at the evaluated values, so a defect that reads a parameter with get_value() while the expression is built is visible (tallies "evaluated away from the initial values").',
+    'and the three-way tie are stated at the evaluated values, so a defect that reads a parameter with get_value() while the expression is built is visible (tallies "evaluated away from the initial values"). '
+    'Round 5: the PYTHON evaluator (Expression.get_value()) of every model function (logit, mev, mev with endogenous sampling, nested +- mu, cross-nested +- mu; numeric utilities, availabilities in every numeric form) under the '
+    'availability patterns that stress the kernel — unavailable alternatives with utilities of +-1e3, a whole nest unavailable (infinite ln G_i), a single available alternative: range, sum to one, zero if unavailable, log = log P, '
+    'shift invariance on the Python outputs and agreement with the engine on the same expressions (tallies "python evaluator"). Observation (not listed): the Python Times multiplies IEEE-wise (0*inf = NaN) where the engine returns 0, '
+    'so the cross-nested families (which multiply by the availability and read the utilities of unavailable alternatives) give NaN on the Python path for an overflowing utility of an unavailable alternative or an explicit zero membership next '
+    'to an empty nest sum; these two inputs are kept out of the Python stream of the cross-nested families.',
     design='DESIGN.md §5 C05',
     technique='Lean 4 theorems over an executable semantic model (NumOps: Float driver / real proofs) + differential correspondence with the real engine + property oracle on real outputs',
     note='Trusted: real vs IEEE arithmetic (overflow of exp not modelled; the engine shifts utilities, the model does not), the engine evaluation of the expression trees. '
@@ -1797,6 +1802,104 @@ def gen_python_path(rng):
     return case
 
 
+PY_SCENARIOS = ['huge', 'nest', 'single', 'plain']
+W_PY = ' evaluated by get_value() (Python evaluator)'
+
+
+def gen_python_all(rng, fam, scenario=None):
+    """every model function on the PYTHON evaluator (`Expression.get_value()`: no database variable — utilities are
+    numbers and parameters, availabilities numbers in every written form), under the availability patterns that
+    stress the kernel: (huge) the unavailable alternatives carry utilities of +-1e3 (an attribute coded 9999),
+    (nest) every alternative of one nest is unavailable (their ln G_i is infinite), (single) one available alternative.
+    The cross-nested families multiply by the availability and read the utilities of unavailable alternatives (0*inf is
+    NaN for the Python `Times`, 0 for the engine): they get no huge utility and no explicit zero membership here."""
+    case = gen_case(rng, fam, k=rng.randint(2, 6))
+    case['rows'] = 1
+    case['cols'] = {k: v[:1] for k, v in case['cols'].items()}
+    case.pop('av_order', None)
+
+    def num(u, idx):
+        if u['k'] in ('num', 'beta'):
+            return u
+        return {'k': 'beta', 'b': dyadic(rng, -3, 3), 'name': f'pb_{idx}', 'fixed': rng.randint(0, 1)}
+
+    for key in ('util', 'logG', 'corr'):
+        if key in case:
+            case[key] = [num(u, f'{key}{i}') for i, u in enumerate(case[key])]
+    case['av'] = [{'k': 'num', 'v': 0 if rng.random() < 0.4 else 1, 'form': rng.choice(AV_NUM_FORMS)} for _ in case['alts']]
+    cnl = fam in ('cnl', 'cnlmu')
+    scen = scenario or rng.choice(PY_SCENARIOS)
+    if scen == 'huge' and cnl:
+        scen = rng.choice(['nest', 'single'])
+    if scen == 'nest' and 'nests' not in case:
+        scen = rng.choice(['huge', 'single'])
+    if cnl:
+        for m in case['nests']['list']:
+            for t in m['alphas']:
+                if t[1] == 0.0:
+                    t[1] = 0.25
+    if scen == 'single':
+        j = rng.randrange(len(case['alts']))
+        for i, sp in enumerate(case['av']):
+            sp['v'] = 1 if i == j else 0
+    elif scen == 'nest':
+        mem = nest_members(rng.choice(case['nests']['list']))
+        for a, sp in zip(case['alts'], case['av']):
+            if a in mem:
+                sp['v'] = 0
+    if all(sp['v'] == 0 for sp in case['av']):
+        case['av'][rng.randrange(len(case['alts']))]['v'] = 1
+    if scen == 'huge':
+        if all(sp['v'] == 1 for sp in case['av']) and len(case['alts']) > 1:
+            case['av'][rng.randrange(len(case['alts']))]['v'] = 0
+            if all(sp['v'] == 0 for sp in case['av']):
+                case['av'][0]['v'] = 1
+        for u, sp in zip(case['util'], case['av']):
+            if sp['v'] == 0:
+                u.clear()
+                u.update({'k': 'num', 'c': rng.choice([1000.0, 999.0, -1000.0, 1000.0])})
+    case['python_all'] = scen
+    return case
+
+
+def check_python_all(ctx, res, case, shift_c=1.5):
+    """the distribution facts, log = log P and shift invariance on the outputs of `get_value()`, and the agreement
+    of the two evaluators (Python / engine) of the same expressions"""
+    fam = case['family']
+    where = f'models.{fam}' + W_PY
+    res.tally(f"python evaluator: {case['python_all']}")
+    res.tally(f'python evaluator: family={fam}')
+    res.count(case, nontrivial=True)
+    rp = real_values(case, python_path=True)
+    rl = real_values(case, python_path=True, log=True)
+    re_ = real_values(case)
+    if 'err' in re_:
+        res.violate(f'{fam}: the model function raises on a valid specification: {re_["msg"]}', case, re_['msg'], 'a probability', where=where_of(case))
+        return
+    if 'err' in rp or 'err' in rl:
+        msg = rp.get('msg') or rl.get('msg')
+        res.violate(f'{fam} (get_value): raises where the engine answers: {msg}', case, msg, fmt(re_['ok']), where=where)
+        return
+    p, lp = rp['ok'], rl['ok']
+    for what, obs, exp in oracle_distribution(case, p):
+        res.violate(f'{fam} (get_value): {what}', case, {'observed': obs, 'p': fmt(p)}, exp, where=where)
+    for what, obs, exp in oracle_log(case, p, lp):
+        res.violate(f'{fam} (get_value): {what}', case, obs, exp, where=where + ' (log version)')
+    for a in case['alts']:
+        x, y = p[a][0], re_['ok'][a][0]
+        if not (is_close(x, y)):
+            res.violate(f'{fam}: probability of alternative {a}: get_value() and the engine disagree on the same expression',
+                        case, x, y, where=where + ' (agreement with the engine)')
+            break
+    if fam not in ('mev', 'meves'):
+        rs = real_values(case, python_path=True, shift=shift_c)
+        if 'err' in rs:
+            res.violate(f'{fam} (get_value): raises after a shift of the utilities: {rs["msg"]}', case, rs['msg'], 'same probabilities', where=where)
+        else:
+            for what, obs, exp in oracle_shift(case, p, rs['ok'], shift_c):
+                res.violate(f'{fam} (get_value): {what}', {**case, 'shift': shift_c}, obs, exp, where=where + ' (shift)')
+
+
 def is_py_unavailable(case):
     """shape of finding F-C05-1: Python path, the chosen alternative is unavailable"""
     return bool(case and case.get('python_path'))
@@ -1901,6 +2004,20 @@ CORPUS_ORDERS = [
          {'mu': {'v': 4.0, 'form': 'beta_fixed', 'name': 'mc'}, 'alphas': [[11, 1.0, 'num'], [6, 0.5, 'num']]}]},
      'stream': 'nest_orders', 'structure': 'valid', 'orders': _ALL3},
 ]
+# the Python evaluator under the availability patterns of gen_python_all (class of seeded agent5_C05_2): an unavailable
+# alternative with a utility of +999 next to ordinary ones; a nested logit whose first nest is entirely unavailable
+CORPUS_PYTHON = [
+    {'family': 'logit', 'alts': [4, 11, 7], 'rows': 1, 'cols': {'X0': [0.0], 'X1': [0.0], 'X2': [0.0]},
+     'util': [{'k': 'num', 'c': 0.5}, {'k': 'num', 'c': 999.0}, {'k': 'beta', 'b': -1.25, 'name': 'asc_7', 'fixed': 0}],
+     'av': [{'k': 'num', 'v': 1, 'form': 'int'}, {'k': 'num', 'v': 0, 'form': 'int'}, {'k': 'num', 'v': 1, 'form': 'numeric'}],
+     'python_all': 'huge'},
+    {'family': 'nested', 'alts': [1, 2, 3, 4, 5], 'rows': 1, 'cols': {'X0': [0.0], 'X1': [0.0], 'X2': [0.0]},
+     'util': [{'k': 'num', 'c': 0.25}, {'k': 'beta', 'b': -0.5, 'name': 'asc_2', 'fixed': 0}, {'k': 'num', 'c': 1.0}, {'k': 'num', 'c': -0.75}, {'k': 'num', 'c': 0.5}],
+     'av': [{'k': 'num', 'v': 0, 'form': 'int'}, {'k': 'num', 'v': 0, 'form': 'int'}, {'k': 'num', 'v': 1, 'form': 'int'}, {'k': 'num', 'v': 1, 'form': 'int'}, {'k': 'num', 'v': 1, 'form': 'int'}],
+     'nests': {'syntax': 'object', 'choice_set': [1, 2, 3, 4, 5], 'list': [{'mu': {'v': 1.625, 'form': 'num', 'name': 'ma'}, 'alts': [1, 2]},
+                                                                          {'mu': {'v': 1.25, 'form': 'num', 'name': 'mb'}, 'alts': [3, 4]}]},
+     'python_all': 'nest'},
+]
 # concrete inputs of the listed findings (replayed first on every run)
 CORPUS_FINDINGS = [
     {'family': 'logit', 'alts': [5, 2], 'rows': 1, 'cols': {'X0': [0.0], 'X1': [0.0], 'X2': [0.0]},
@@ -1934,6 +2051,9 @@ def check(ctx) -> Result:
                 check_ordered(ctx, res, c)
                 res.tally('corpus')
             check_python_path(ctx, res, CORPUS_FINDINGS[0])
+            for c in CORPUS_PYTHON:
+                check_python_all(ctx, res, c)
+                res.tally('corpus')
             check_ordered(ctx, res, CORPUS_FINDINGS[1])
             for c in CORPUS_ORDERS:
                 check_nest_orders(ctx, res, c)
@@ -1968,6 +2088,10 @@ def check(ctx) -> Result:
                 case['av'] = [{'k': 'num', 'v': 1} for _ in case['alts']] if rng.random() < 0.3 else case['av']
                 check_python_path_available_only(ctx, res, case)
             lap('other streams')
+            for _ in range(ctx.n(6, 60)):
+                for fam in FAMILIES_R3:
+                    check_python_all(ctx, res, gen_python_all(rng, fam), shift_c=rng.choice([1.5, -2.25, 3.0]))
+            lap('python evaluator')
             _TIE.run(res)
             lap(f'engine model on the real texts')
             ctx.batch.flush()
@@ -2012,6 +2136,7 @@ def search(ctx, res, broken):
             for fam in FAMILIES_R3:
                 check_config_full(ctx, r2, gen_case3(rng, fam), shift_c=dyadic(rng, -4, 4) or 1.0, with_model=False)
             check_ordered(ctx, r2, gen_ordered(rng, rng.choice(ORDERED)), with_model=False)
+            check_python_all(ctx, r2, gen_python_all(rng, rng.choice(FAMILIES_R3)))
             for fam in ('nested', 'nestedmu', 'cnl', 'cnlmu'):
                 check_nest_orders(ctx, r2, gen_structure(rng, fam), with_model=False)
     ctx.batch.items.clear()
@@ -2024,7 +2149,9 @@ def replay(ctx, obj):
     out = {'replayed': obj.get('what')}
     r = Result()
     with core.scratch():
-        if case.get('python_path'):
+        if case.get('python_all'):
+            check_python_all(ctx, r, case, shift_c=case.pop('shift', 1.5))
+        elif case.get('python_path'):
             check_python_path(ctx, r, case)
         elif case.get('family') in ORDERED:
             check_ordered(ctx, r, case, with_model=False)
